@@ -513,8 +513,15 @@ impl<'tcx> Cx<'tcx> {
             _ => return None,
         };
         let hir::ExprKind::Match(_, inner_arms, hir::MatchSource::ForLoopDesugar) = inner.kind else { return None };
-        let some_arm = inner_arms.iter().find(|a| matches!(a.pat.kind, hir::PatKind::TupleStruct(_, [_], _)))?;
-        let hir::PatKind::TupleStruct(_, [pat], _) = some_arm.pat.kind else { return None };
+        let mut found: Option<(&'tcx hir::Arm<'tcx>, &'tcx hir::Pat<'tcx>)> = None;
+        for a in inner_arms.iter() {
+            match a.pat.kind {
+                hir::PatKind::TupleStruct(_, [p], _) => found = Some((a, p)),
+                hir::PatKind::Struct(_, [f], _) => found = Some((a, f.pat)),
+                _ => {}
+            }
+        }
+        let (some_arm, pat) = found?;
         let ity = self.tr.expr_ty(iter_e);
         let old = self.cur;
         self.cur = iter_e.span.ctxt();
